@@ -78,6 +78,9 @@ pub fn file_exec(scn: &Scenario, st: &mut Stats, oracle: &dyn Fn(&ParserRun, &[u
     for p in &f.post {
         st.bump("fault.byte", p.name());
     }
+    if f.msgs.iter().any(|m| m.seal == Seal::GoodShort && crate::refenc::crc16_x25(&m.body).swap_bytes() < 0x100) {
+        st.bump("probe", "one-byte-crc-field");
+    }
     let r = run_parsers(&x, f.extra_polls);
     let resealed = f.sub.starts_with("resealed") && f.post.is_empty();
     count_outcomes(st, &r, resealed);
